@@ -394,9 +394,9 @@ func (tr *Translator) binopT(st *State, op token.Token, xt, yt, rt types.Type, a
 		case token.SUB:
 			return res(sx("fp.sub", "RNE", a.t, b.t))
 		case token.MUL:
-			return res(sx("fp.mul", "RNE", a.t, b.t))
+			return res(sx("fmulX", a.t, b.t))
 		case token.QUO:
-			return res(sx("fp.div", "RNE", a.t, b.t))
+			return res(sx("fdivX", a.t, b.t))
 		case token.EQL:
 			return res(sx("fp.eq", a.t, b.t))
 		case token.NEQ:
@@ -637,6 +637,9 @@ func (tr *Translator) convertT(from, to types.Type, v Val) Val {
 	case fInt && tFlt:
 		if it.mode == ModeBV {
 			if fk.signed {
+				if fk.bits == 64 && tb == 64 {
+					return Val{t: sx("s2fX", v.t), typ: to}
+				}
 				return Val{t: sx(fpSort(tb), "RNE", v.t), typ: to}
 			}
 			return Val{t: sx(strings.Replace(fpSort(tb), "to_fp", "to_fp_unsigned", 1), "RNE", v.t), typ: to}
@@ -648,6 +651,9 @@ func (tr *Translator) convertT(from, to types.Type, v Val) Val {
 		c.note("float->int conversion outside the target range (or of NaN) yields an unspecified value, as in the Go spec")
 		if it.mode == ModeBV {
 			if tk.signed {
+				if tk.bits == 64 && fb == 64 {
+					return Val{t: sx("f2sX", v.t), typ: to}
+				}
 				return Val{t: sx(fmt.Sprintf("(_ fp.to_sbv %d)", tk.bits), "RTZ", v.t), typ: to}
 			}
 			return Val{t: sx(fmt.Sprintf("(_ fp.to_ubv %d)", tk.bits), "RTZ", v.t), typ: to}
